@@ -1,6 +1,7 @@
 import EaselModel.Dsqdata.Bytes
 import EaselModel.Dsqdata.RoundTrip
 import EaselModel.Dsqdata.Meta
+import EaselModel.Dsqdata.Consts
 /-! # The dsqdata on-disk format at byte level: `esl_dsqdata_Write`, `esl_dsqdata_Open`'s header validation, and the
 loader's `fread`s (esl_dsqdata.c §1, §2, §4). Executable model, core Lean only.
 
@@ -26,12 +27,12 @@ structure Files where
   seq : List UInt8
 deriving Repr, DecidableEq
 
-abbrev MAGIC : Nat := 0xc4d3d1b1
-abbrev MAGIC_SWAP : Nat := 0xb1d1d3c4
+abbrev MAGIC : Nat := Consts.magic
+abbrev MAGIC_SWAP : Nat := Consts.magicSwap
 /-- `eslDSQDATA_CHUNK_MAXPACKET` -/
-abbrev MAXPACKET : Nat := 262144
+abbrev MAXPACKET : Nat := Consts.chunkMaxpacket
 /-- `eslDSQDATA_CHUNK_MAXSEQ` -/
-abbrev MAXSEQ : Nat := 4096
+abbrev MAXSEQ : Nat := Consts.chunkMaxseq
 
 /-- `"%u"` / `"%lu"`: decimal digits, at most `fuel` of them (10 for a `uint32_t`, 20 for a `uint64_t`) -/
 def decDigits : Nat → Nat → List UInt8
